@@ -114,8 +114,8 @@ def run(repo, rep):
     rep.clause("C07-j", "locals of the Python encoder front end that are named after a side (ifm_ublock, ofm_ublock ..) are read from that side")
     from .shared import binding_stem_lint as _bsl7
 
-    if _bsl7(repo, rep, "C07-j", ["weight_compressor"]) < 2:
-        raise AnalysisError("weight_compressor: fewer than 2 side-named bindings found")
+    # no floor: a refactoring that unpacks the micro-blocks positionally leaves no side-named attribute read to compare
+    _bsl7(repo, rep, "C07-j", ["weight_compressor"])
 
     # ---------------------------------------------------------------- b
     n_assert = 0
